@@ -42,7 +42,7 @@ static void lg_add(void *p, size_t n) {
     lg_live++; lg_bytes += n;
     if (lg_bytes > lg_high) lg_high = lg_bytes;
 }
-static size_t vp_last_freed_size = 0;
+static VP_TL size_t vp_last_freed_size = 0;     /* per thread, like the ledger (the TSan builds give every thread its own port) */
 static int lg_del(void *p) {
     lg_init();
     size_t i = lg_slot(p);
@@ -95,8 +95,8 @@ void vp_print_end_less(size_t dlive_plus, size_t dlive_minus, size_t dbytes_plus
 /* `glob recycle=on`: freed blocks are stashed (newest first) and handed out again, content untouched, to the next request of
    the same size - what a real allocator does, made deterministic and independent of libc / ASan quarantine */
 #define STASH_MAX 64
-static struct { void *p; size_t n; } stash[STASH_MAX];
-static int n_stash = 0;
+static VP_TL struct { void *p; size_t n; } stash[STASH_MAX];
+static VP_TL int n_stash = 0;
 void *vp_raw_alloc(size_t n) {
     if (vp_glob.recycle) {
         for (int i = n_stash - 1; i >= 0; i--) if (stash[i].n == n) {
